@@ -56,7 +56,7 @@ func c09Case(c *core.Ctx, rng *rand.Rand, dir string, idx int) {
 	os.Mkdir("o", 0o755)
 	os.Symlink("p", "pl")
 	isDir := rng.Intn(4) == 0
-	ending := []string{"delete", "rename-away", "rename-within", "overwrite-by-rename", "recreate"}[rng.Intn(5)]
+	ending := []string{"delete", "rename-away", "rename-within", "overwrite-by-rename", "recreate", "rename-then-delete"}[rng.Intn(6)]
 	parent := []string{"none", "same", "other-spelling", "symlink", "late"}[rng.Intn(5)]
 	via := []string{"direct", "symlink"}[rng.Intn(4)/3]
 	holds := 0
@@ -156,6 +156,7 @@ func c09Case(c *core.Ctx, rng *rand.Rand, dir string, idx int) {
 	}
 	carg := filepath.Clean(arg)
 	var fds []int
+	readdedEarly := false
 	for h := 0; h < holds; h++ {
 		if fd, err := s.Hold("p/x"); err == nil {
 			fds = append(fds, fd)
@@ -173,6 +174,14 @@ func c09Case(c *core.Ctx, rng *rand.Rand, dir string, idx int) {
 		}
 	case "rename-away":
 		s.Rename("p/x", "o/y")
+	case "rename-then-delete": // the kernel drops the watch before the reader (if it lags) has seen IN_MOVE_SELF
+		s.Rename("p/x", "o/y")
+		if isDir {
+			s.Rmdir("o/y")
+		} else {
+			s.Chmod("o/y", 0o600)
+			s.Unlink("o/y")
+		}
 	case "rename-within":
 		s.Rename("p/x", "p/y")
 	case "overwrite-by-rename":
@@ -207,6 +216,22 @@ func c09Case(c *core.Ctx, rng *rand.Rand, dir string, idx int) {
 		if parent == "late" {
 			s.AddStrict(&rep, "p")
 		}
+		// re-Add while the old inode is still held open: the listed path now names the NEW file,
+		// so the watch must move there (the old one is released) and the new file be reported
+		if (ending == "recreate" || ending == "overwrite-by-rename") && rng.Intn(2) == 0 {
+			if s.AddStrict(&rep, arg) != nil {
+				fail("re-add-failed", fmt.Sprintf("re-Add(%q) while the old inode is held open failed", arg))
+				return
+			}
+			c.Count("readds_while_old_inode_held", 1)
+			s.Chmod("p/x", 0o622)
+			s.Write("p/x", 1)
+			if !s.Sync(&rep, true) {
+				stream()
+				return
+			}
+			readdedEarly = true
+		}
 		for len(fds) > 0 {
 			j := rng.Intn(len(fds))
 			if len(fds) == 1 && rng.Intn(2) == 0 {
@@ -224,6 +249,15 @@ func c09Case(c *core.Ctx, rng *rand.Rand, dir string, idx int) {
 	c.Count("histories", 1)
 	c.Eval(1)
 	if !stream() {
+		return
+	}
+	if readdedEarly {
+		// the path is watched again (new file): it must still be listed and still report
+		s.Chmod("p/x", 0o633)
+		s.Sync(&rep, true)
+		if stream() && rep.Received > 0 {
+			c.Distinct(params + " readded-early")
+		}
 		return
 	}
 	err = s.W.Remove(arg)
